@@ -376,6 +376,35 @@ def r5(ctx, cfg, R="C06.R5"):
     ok = _self_field(a[0], "local_state") and b[0] == "agg" and b[1] == "tuple" and len(b[2]) == 2
     ctx.ob(R, key, "range(local_state, range_bounds(start,end))", ok, "BTreeMap::range(%s, %s)" % (fmt(a[0]), fmt(a[1])[:100]), fn=f,
            line=rt["line"], sample="local_state.range((lower, upper))")
+    # the inverted case may also be made harmless by clamping: `let local_end = match (start, end) { (Some(s), Some(e)) if s > e => Some(s), _ => end }`
+    # hands BTreeMap::range the empty range [start, start) - the end bound carries the caller's *start* exactly under the `start > end` test
+    def _inverted(c0):
+        if c0[0] != "bool" or q.is_derived(c0) or c0[1][0] != "lt" or len(c0[1][1]) != 2 or c0[1][2] is not True:
+            return False
+        lo0, hi0 = peel(c0[1][1][0]), peel(c0[1][1][1])
+        return lo0[0] == "some" and is_param(lo0[1], "end") and hi0[0] == "some" and is_param(hi0[1], "start")
+    clamped = False
+    if ok:
+        cl = []
+        for st0 in [st0 for b0, i0, st0 in f.stmts() if st0["k"] == "assign" and st0["rv"].get("k") == "aggregate" and st0["rv"].get("agg") == "tuple" and
+                    len(st0["rv"]["ops"]) == 2 and same_origin(P.rvalue(f, st0["rv"], (b0, i0)), a[1])]:
+            l0 = q.local_of_operand(st0["rv"]["ops"][1])
+            for val, conds, dsite in (q.value_cases(P, f, l0) if l0 is not None else []):
+                v = peel(val)
+                if v[0] == "agg" and v[1].endswith("Bound::Excluded") and v[2]:
+                    for pay in alts(peel(v[2][0][1])):
+                        pay = peel(pay)
+                        if pay[0] == "some" and is_param(pay[1], "start"):
+                            cl.append(True)
+        # (the alternatives of the payload are not separated by value_cases when they meet in one Option local: look at that local)
+        endp = [peel(x) for x in alts(peel(b[2][1][1]))]
+        pays = [peel(y) for x in endp if x[0] == "agg" and x[1].endswith("Bound::Excluded") and x[2] for y in alts(peel(x[2][0][1]))]
+        if any(y[0] == "some" and is_param(y[1], "start") for y in pays):
+            # every place where an Option that ends up as the end bound is made from `start` lies behind the inverted test
+            sites = [(b0, i0) for b0, i0, st0 in f.stmts() if st0["k"] == "assign" and st0["rv"].get("k") == "aggregate" and st0["rv"].get("variant") == "Some" and
+                     st0["rv"].get("adt") == "std::option::Option" and peel(P.rvalue(f, st0["rv"], (b0, i0)))[0] == "agg" and
+                     is_param(peel(peel(P.rvalue(f, st0["rv"], (b0, i0)))[2][0][1])[1] if peel(peel(P.rvalue(f, st0["rv"], (b0, i0)))[2][0][1])[0] == "some" else ("?",), "start")]
+            clamped = bool(sites) and all(any(_inverted(c0) for e0, c0 in q.dominating_conditions(P, f, b0)) for b0, i0 in sites)
     # the bounds handed to BTreeMap::range: (Included(start) | Unbounded, Excluded(end) | Unbounded) - read at the call
     # (the helper range_bounds is always spliced; `map_or` and `match` forms have the same alternatives)
     if ok:
@@ -387,7 +416,10 @@ def r5(ctx, cfg, R="C06.R5"):
                     kinds.add("Unbounded")
                 elif o[0] == "agg" and o[1].startswith("std::ops::Bound::") and o[2]:
                     pay = peel(o[2][0][1])
-                    from_param = (pay[0] == "some" and is_param(pay[1], pname)) or pay[0] == "cparam" or (pay[0] == "bound" and is_param(pay[2], pname))
+                    def from_param_(pay):
+                        return (pay[0] == "some" and is_param(pay[1], pname)) or pay[0] == "cparam" or (pay[0] == "bound" and is_param(pay[2], pname)) or \
+                            (clamped and pname == "end" and pay[0] == "some" and is_param(pay[1], "start"))
+                    from_param = all(from_param_(peel(y)) for y in alts(pay))
                     kinds.add(o[1].rsplit("::", 1)[1] if from_param else "other:" + fmt(o)[:60])
                 else:
                     kinds.add("other:" + fmt(o)[:60])
@@ -408,7 +440,8 @@ def r5(ctx, cfg, R="C06.R5"):
                         continue
                     nleaf += 1
                     pres = [c0[2] for e0, c0 in conds if c0[0] == "variant_in" and is_param(c0[1], pname)]
-                    extra = [c0[1] for e0, c0 in conds if c0[0] == "bool" and not q.is_derived(c0) and any(contains(x, lambda y: y[0] == "param" and y[2] == pname) for x in c0[1][1])]
+                    extra = [c0[1] for e0, c0 in conds if c0[0] == "bool" and not q.is_derived(c0) and any(contains(x, lambda y: y[0] == "param" and y[2] == pname) for x in c0[1][1])
+                             and not (clamped and c0[1][0] == "lt")]
                     if v[1].endswith("Unbounded") and (("None",) not in pres or extra):
                         bad.append("Unbounded chosen under %s %s" % (pres, [(e1[0], e1[2]) for e1 in extra]))
                     if not v[1].endswith("Unbounded") and (("Some",) not in pres or extra):
@@ -425,6 +458,8 @@ def r5(ctx, cfg, R="C06.R5"):
                             src0 = alts(peel(a0[0]))
                             plain = all((y[0] == "agg" and y[1].endswith("Option::None")) or
                                         (y[0] == "agg" and y[1].endswith("Option::Some") and peel(y[2][0][1])[0] == "some" and is_param(peel(y[2][0][1])[1], pname)) or
+                                        (clamped and pname == "end" and y[0] == "agg" and y[1].endswith("Option::Some") and peel(y[2][0][1])[0] == "some" and
+                                         is_param(peel(y[2][0][1])[1], "start")) or
                                         is_param(y, pname) for y in src0)
                             if dflt[0] == "agg" and dflt[1].endswith("Bound::Unbounded") and fn0 == ("fn", "std::ops::Bound::" + want) and plain:
                                 nleaf += 2
@@ -510,14 +545,15 @@ def r5(ctx, cfg, R="C06.R5"):
         for s_ in seqs:
             ev = [e for e in s_ if isinstance(e, tuple)]
             npaths += 1
-            if ("inverted",) in ev and ("range",) in ev:
+            if ("inverted",) in ev and ("range",) in ev and not clamped:
                 bad1.append(ev)
             # (the inverted case yields nothing: `iter::empty()`, or `None.into_iter().flatten()` - what it must not do is read
-            # the overlay map in any way)
-            if ("inverted",) in ev and any(e[0] == "map-read" for e in ev):
+            # the overlay map in any way; a range clamped to [start, start) reads nothing either)
+            if ("inverted",) in ev and any(e[0] == "map-read" for e in ev) and not clamped:
                 bad2.append(ev)
             if combo[li] == "Included" and combo[ui] == "Excluded" and ("range",) in ev and \
-                    not (("in-order",) in ev and ev.index(("in-order",)) < ev.index(("range",))):
+                    not (("in-order",) in ev and ev.index(("in-order",)) < ev.index(("range",))) and \
+                    not (clamped and ("inverted",) in ev and ev.index(("inverted",)) < ev.index(("range",))):
                 bad3.append(ev)
     ctx.ob(R, key, "inverted-bounds-never-reach-BTreeMap::range", not bad1 and npaths > 0, "the `start > end` edge reaches BTreeMap::range (which panics): %s" % bad1[:1], fn=f,
            line=gt["line"], sample="%d paths: none takes the start>end edge and calls range()" % npaths)
@@ -801,12 +837,17 @@ def r6(ctx, cfg, R="C06.R6"):
             ok = _self_field(a[0], "storage") and is_param(a[1], "start") and is_param(a[2], "end") and is_param(a[3], "order")
         ctx.ob(R, key, "base.range(start,end,order)", ok, "base range is not called with the caller's bounds and order", fn=f,
                sample="self.storage.range(start, end, order)")
+        # (one merge, or one per order - `match order { Ascending => merge(local, ..), Descending => merge(local.rev(), ..) }` - each of them
+        #  over the overlay range, the base range and the caller's order)
         mo = q.calls(f, T + "MergeOverlay::new")
-        ok = len(mo) == 1
-        if ok:
-            a = P.call_args(f, mo[0][1], mo[0][0])
-            ok = is_param(a[2], "order") and contains(a[1], lambda x: x[0] == "call" and x[1] == "cosmwasm_std::Storage::range") and \
+        ok = 1 <= len(mo) <= 2
+        for mb0, mt0 in mo:
+            a = P.call_args(f, mt0, mb0)
+            ok = ok and is_param(a[2], "order") and contains(a[1], lambda x: x[0] == "call" and x[1] == "cosmwasm_std::Storage::range") and \
                 contains(a[0], lambda x: x[0] == "call" and x[1] == "std::collections::BTreeMap::range")
+        if len(mo) == 2:
+            arms = {c[2][0] for mb0, mt0 in mo for e, c in q.dominating_conditions(P, f, mb0) if c[0] == "variant_in" and len(c[2]) == 1 and is_param(c[1], "order")}
+            ok = ok and arms == {"Ascending", "Descending"}
         ctx.ob(R, key, "merge(local, base, order)", ok, "MergeOverlay::new is not given (overlay, base, order)", fn=f,
                sample="MergeOverlay::new(local, base, order)")
         ret = P.ret(f)
